@@ -3306,6 +3306,10 @@ LEFT JOIN conversions ON {join_condition}{group_by}{order_clause}{limit_clause}
                     # Roll up to coarser granularity
                     date_trunc_expr = self._date_trunc(gran, preagg_col)
                     select_exprs.append(f"{date_trunc_expr} as {dim_name}__{gran}")
+            elif gran:
+                # Another time dimension, kept in the rollup as a plain dimension column:
+                # truncate the stored values to the requested granularity
+                select_exprs.append(f"{self._date_trunc(gran, dim_name)} as {dim_name}__{gran}")
             else:
                 # Regular dimension - use as is
                 select_exprs.append(f"{dim_name}")
